@@ -94,7 +94,7 @@ Fixpoint parse_labels (fuel : nat) (m : bytes) (lim cur name_len start : N)
             else parse_labels fuel' m lim (cur' + l) nl start compressed endp
       | Ok (LCompressed ptr, cur') =>
           let endp' := match endp with None => Some cur' | Some e => Some e end in
-          do target <- hops (S (N.to_nat ptr)) m lim ptr cur';
+          do target <- hops (S (S (N.to_nat ptr))) m lim ptr cur';
           if name_len =? 0
           then parse_labels fuel' m lim target name_len target false endp'
           else parse_labels fuel' m lim target name_len start true endp'
